@@ -26,12 +26,19 @@ def _cli_fn(spec, scratch):
         with open(os.path.join(d, rel), "w", encoding="utf-8") as fh:
             fh.write(text)
     argv = [a.replace("{DIR}", d) for a in spec["cli"]["argv"]]
+    out_file = os.path.join(d, "out.py") if spec["cli"].get("out") else None
+    if out_file:
+        argv += ["-o", out_file]
 
     def go():
         from json_to_models.cli import Cli
         c = Cli()
         c.parse_args(argv)
-        return split_header(c.run())[1]
+        text = c.run()
+        if out_file:
+            with open(out_file, encoding="utf-8") as fh:
+                text = fh.read()
+        return split_header(text)[1]
 
     return lambda: outcome(go)
 
@@ -56,8 +63,15 @@ def job_threads(args):
     specs = args["specs"]
     set_schedule(None)
     sched = args.get("sched") or {}
+    extra = ()
+    if any("cli" in s and "yaml" in " ".join(s["cli"]["argv"]) for s in specs):
+        # the CLI keeps ONE module-level YAML parser object: frames of the YAML library are pre-emption points as well
+        import os as _os
+        import ruamel.yaml as _ry
+        extra = (_os.path.dirname(_ry.__file__) + "/",)
     baton = Baton(len(specs), rng=random.Random(sched.get("seed", 0)), mean_gap=sched.get("mean_gap", 50),
-                  p_target=sched.get("p_target", 0.0), replay=args.get("replay"), p_first=sched.get("p_first", 0.0))
+                  p_target=sched.get("p_target", 0.0), replay=args.get("replay"), p_first=sched.get("p_first", 0.0),
+                  extra_prefixes=extra)
     scratch = None
     if any("cli" in s for s in specs):
         scratch = tempfile.mkdtemp(prefix="j2m-sim-", dir="/dev/shm" if __import__("os").path.isdir("/dev/shm") else None)
@@ -145,10 +159,19 @@ def make_run(seed, i):
             w = gen_workload(seeds.derive(seed, PROP, i, "cli", t), bulk=0, n_models=1,
                              scalar_kinds=["str_date", "str_datetime", "str_time", "str_plain", "int", "str_int"], p_hetero=0.4)
             o = w["options"]
-            argv = ["-m", "Cli%d" % t, "{DIR}/data.json", "--datetime", "-f", o["framework"], "-s", o["structure"],
-                    "--max-strings-literals", str(o["max_literals"])]
-            specs[t] = {"cli": {"dir": "t%d" % t, "files": {"data.json": _json.dumps(w["models"][0][1], ensure_ascii=False)},
-                                "argv": argv}}
+            crng = seeds.derive(seed, PROP, i, "cliopts", t)
+            fmt = crng.choice(["json", "json", "yaml", "ini"])
+            if fmt == "ini":
+                fname = "data.ini"
+                text = "\n".join(f"[s{k}]\nhost = h{k}\nport = {8000 + k}\nstarted = 2020-01-0{k + 1}\n" for k in range(crng.randint(1, 3)))
+            else:
+                fname = "data." + fmt
+                text = _json.dumps(w["models"][0][1], ensure_ascii=False, indent=(1 if fmt == "yaml" else None))
+            argv = ["-m", "Cli%d" % t, "{DIR}/" + fname, "--datetime", "-f", o["framework"], "-s", o["structure"],
+                    "--max-strings-literals", str(o["max_literals"]), "--merge", *o["merge"]]
+            if fmt != "json":
+                argv += ["-i", fmt]
+            specs[t] = {"cli": {"dir": "t%d" % t, "files": {fname: text}, "argv": argv, "out": crng.random() < 0.4}}
         for t in range(n):
             if "cli" not in specs[t] and specs[t]["options"].get("str_types") == "default":
                 specs[t]["options"]["str_types"] = ["int", "float", "bool"]
